@@ -256,6 +256,8 @@ class Ctx:
                         pre = '#[verifier::external_body] '
                     e.log('AUTO', 'constant auto-included; its value is opaque to Verus')
                     self.helpers.append(name)
+            elif kw == 'type':
+                e.log('AUTO', 'type alias introduced by the edit auto-included as is')
             elif kw == 'static':
                 if self.flavour == 'verus':
                     pre = '#[verifier::external] '
